@@ -484,6 +484,82 @@ type edRun struct {
 	// BlankOnly: lines of the starting file whose only "comment" was a blank-line placeholder (the strict
 	// parser then does not let them inherit the block's comments; structural cause of finding G4).
 	BlankOnly map[*modfile.Line]bool
+	// PreBulkSuffix: for every requirement, the first end-of-line comment token of its line just before the most
+	// recent SetRequire / SetRequireSeparateIndirect of the session (structural cause of the finding
+	// "remainder-is-marker": setIndirect(false) rewrites "// indirect; T" to "// T", and T is again a marker).
+	PreBulkSuffix map[*modfile.Require]string
+}
+
+const edSigRemainder = "require-indirect:remainder-is-marker"
+
+// edIsIndirectTok is modfile's isIndirect test on one end-of-line comment token.
+func edIsIndirectTok(tok string) bool {
+	f := strings.Fields(strings.TrimPrefix(tok, "//"))
+	return (len(f) == 1 && f[0] == "indirect") || (len(f) > 1 && f[0] == "indirect;")
+}
+
+// edRemainderIsMarker: the token is "// indirect; T" (marker with payload) and the text the marker removal
+// leaves behind ("//" + what follows the first "indirect;") is itself an indirect marker.
+func edRemainderIsMarker(tok string) bool {
+	f := strings.Fields(strings.TrimPrefix(tok, "//"))
+	if len(f) < 2 || f[0] != "indirect;" {
+		return false
+	}
+	i := strings.Index(tok, "indirect;")
+	return i >= 0 && edIsIndirectTok("//"+tok[i+len("indirect;"):])
+}
+
+// edRecordPreBulk snapshots the end-of-line comments of all requirements (called before a bulk setter).
+func edRecordPreBulk(m map[*modfile.Require]string, f *modfile.File) {
+	for _, r := range f.Require {
+		if r != nil && r.Syntax != nil && len(r.Syntax.Suffix) > 0 {
+			m[r] = r.Syntax.Suffix[0].Token
+		} else {
+			delete(m, r)
+		}
+	}
+}
+
+// edIndirectDetail pairs every typed requirement with the re-parsed one on the same output line and names an
+// indirect-flag mismatch: "" (none), edSigRemainder (every mismatch is: typed direct, re-parsed indirect, and the
+// line's comment before the last bulk setter was "// indirect; <marker>"), or "require-indirect" (anything else).
+func edIndirectDetail(run *edRun) string {
+	if run.Mod == nil || run.ReMod == nil {
+		return "require-indirect"
+	}
+	fin, re := edTreeLines(run.Mod.Syntax), edTreeLines(run.ReMod.Syntax)
+	if len(fin) != len(re) || len(run.Mod.Require) != len(run.ReMod.Require) {
+		return "require-indirect"
+	}
+	pos := map[*modfile.Line]int{}
+	for i, l := range fin {
+		pos[l.Ptr] = i
+	}
+	reBy := map[*modfile.Line]*modfile.Require{}
+	for _, q := range run.ReMod.Require {
+		reBy[q.Syntax] = q
+	}
+	known := ""
+	for _, r := range run.Mod.Require {
+		k, ok := pos[r.Syntax]
+		if !ok {
+			return "require-indirect"
+		}
+		q := reBy[re[k].Ptr]
+		if q == nil || q.Mod != r.Mod {
+			return "require-indirect"
+		}
+		if q.Indirect == r.Indirect {
+			continue
+		}
+		pre, had := run.PreBulkSuffix[r]
+		if !r.Indirect && q.Indirect && had && edRemainderIsMarker(pre) {
+			known = edSigRemainder
+			continue
+		}
+		return "require-indirect"
+	}
+	return known
 }
 
 // edDirectiveText is the text of whole-line and end-of-line comments (blank placeholders skipped).
@@ -577,7 +653,8 @@ func edTreeLines(fs *modfile.FileSyntax) []edLineRec {
 // edRunSession parses the file strictly, applies ops (a final Cleanup is always applied),
 // formats and re-parses strictly.  stopBefore < 0: run everything.
 func edRunSession(work bool, file string, ops []edOp) (run *edRun) {
-	run = &edRun{Collapsed: map[*modfile.Line]string{}, StartPtr: map[*modfile.Line]bool{}, BlankOnly: map[*modfile.Line]bool{}}
+	run = &edRun{Collapsed: map[*modfile.Line]string{}, StartPtr: map[*modfile.Line]bool{}, BlankOnly: map[*modfile.Line]bool{},
+		PreBulkSuffix: map[*modfile.Require]string{}}
 	var fs *modfile.FileSyntax
 	if work {
 		f, err := modfile.ParseWork("go.work", []byte(file), nil)
@@ -620,6 +697,9 @@ func edRunSession(work bool, file string, ops []edOp) (run *edRun) {
 		cur = o.Name
 		if o.Name == "cleanup" {
 			edTrackCollapse(run, fs)
+		}
+		if !work && (o.Name == "setrequire" || o.Name == "setrequiresep") {
+			edRecordPreBulk(run.PreBulkSuffix, run.Mod)
 		}
 		if work {
 			run.Res = append(run.Res, edApplyWork(run.Work, o))
